@@ -28,36 +28,54 @@ type Case struct {
 	C     []model.F `json:"c"`
 }
 
-const (
-	minMag = 1e-100
-	maxMag = 1e100
-)
-
-// inDomain forces v into the property's domain: zero or magnitude in [1e-100, 1e100].
+// inDomain forces v into the property's domain: every finite float64 (the
+// statement says "any three points"; NaN and the infinities are not points).
 func inDomain(v float64) float64 {
-	a := math.Abs(v)
 	switch {
-	case v == 0 || math.IsNaN(v):
+	case math.IsNaN(v):
 		return 0
-	case a < minMag:
-		return 0
-	case a > maxMag:
-		return math.Copysign(maxMag, v)
+	case math.IsInf(v, 0):
+		return math.Copysign(math.MaxFloat64, v)
 	}
 	return v
 }
 
+// minExp..maxExp: binary exponents of every finite float64, subnormals included.
+const (
+	minExp = -1074
+	maxExp = 1023
+)
+
+// ofExp returns +-(1.m) * 2^e, or the subnormal with its top bit at 2^e.
+func ofExp(e int, m, s uint64) float64 {
+	if e < -1022 {
+		return math.Float64frombits(s<<63 | (1<<52|m)>>uint(-1022-e))
+	}
+	return math.Float64frombits(s<<63 | uint64(e+1023)<<52 | m)
+}
+
 func mag(t *rapid.T, label string, sharedExp int) float64 {
-	if rapid.IntRange(0, 11).Draw(t, label+"zero") == 0 {
+	switch rapid.IntRange(0, 23).Draw(t, label+"zero") {
+	case 0, 1:
 		return 0
+	case 2:
+		// the ends of the range: overflowing differences, products that underflow to nothing
+		return rapid.SampledFrom([]float64{math.MaxFloat64, -math.MaxFloat64, math.SmallestNonzeroFloat64, -math.SmallestNonzeroFloat64, 0x1p-1022, -0x1p-1022, 0x1p1023}).Draw(t, label+"end")
 	}
 	e := sharedExp
 	if e == 9999 {
-		e = rapid.IntRange(-332, 332).Draw(t, label+"e")
+		// moderate exponents as often as the whole range
+		if rapid.Bool().Draw(t, label+"wide") {
+			e = rapid.IntRange(minExp, maxExp).Draw(t, label+"e")
+		} else {
+			e = rapid.IntRange(-332, 332).Draw(t, label+"e")
+		}
+	} else if e > minExp+4 {
+		e -= rapid.IntRange(0, 4).Draw(t, label+"de")
 	}
 	m := rapid.Uint64Range(0, 1<<52-1).Draw(t, label+"m")
 	s := rapid.Uint64Range(0, 1).Draw(t, label+"s")
-	return inDomain(math.Float64frombits(s<<63 | uint64(e+1023)<<52 | m))
+	return ofExp(e, m, s)
 }
 
 func nudge(t *rapid.T, v float64, label string) float64 {
@@ -80,11 +98,16 @@ func extras(t *rapid.T, n int, label string) []float64 {
 }
 
 func genCase(t *rapid.T) Case {
-	class := rapid.SampledFrom([]string{"near", "near", "near", "near-shared-exp", "near-small-int-dir", "shared", "axis", "random", "grid-big"}).Draw(t, "class")
+	class := rapid.SampledFrom([]string{"near", "near", "near", "near-shared-exp", "near-small-int-dir", "shared", "axis", "random", "random-shared-exp", "grid-big"}).Draw(t, "class")
 	var a, b, c [2]float64
 	shared := 9999
-	if class == "near-shared-exp" {
-		shared = rapid.IntRange(-332, 331).Draw(t, "sharedexp")
+	if class == "near-shared-exp" || class == "random-shared-exp" {
+		// all ordinates within a few binades of one exponent anywhere in the range: at the
+		// low end every product of differences underflows, at the high end it overflows
+		shared = rapid.SampledFrom([]int{minExp, -1060, -1022, -1000, -600, -540, -512, -500, -300, 0, 300, 500, 511, 512, 540, 1000, 1020, maxExp}).Draw(t, "sharedexp")
+		if rapid.Bool().Draw(t, "sharedany") {
+			shared = rapid.IntRange(minExp, maxExp).Draw(t, "sharedexpany")
+		}
 	}
 	switch class {
 	case "near", "near-shared-exp":
@@ -133,7 +156,7 @@ func genCase(t *rapid.T) Case {
 			b[0], b[1] = b[1], b[0]
 			c[0], c[1] = c[1], c[0]
 		}
-	case "random":
+	case "random", "random-shared-exp":
 		a = [2]float64{mag(t, "ax", shared), mag(t, "ay", shared)}
 		b = [2]float64{mag(t, "bx", shared), mag(t, "by", shared)}
 		c = [2]float64{mag(t, "cx", shared), mag(t, "cy", shared)}
@@ -168,7 +191,23 @@ func genCase(t *rapid.T) Case {
 	return Case{Class: class, A: mk(a, "ea"), B: mk(b, "eb"), C: mk(c, "ec")}
 }
 
+// rangeTrouble: a product of differences underflows (inexact or lost entirely)
+// or overflows, so plain double arithmetic cannot be trusted whatever the filter.
+func rangeTrouble(a, b, c []float64) bool {
+	bad := func(x, y float64) bool {
+		if x == 0 || y == 0 {
+			return math.IsInf(x, 0) || math.IsInf(y, 0)
+		}
+		p := math.Abs(x * y)
+		return !(p >= 0x1p-1022 && p <= math.MaxFloat64)
+	}
+	return bad(a[0]-c[0], b[1]-c[1]) || bad(a[1]-c[1], b[0]-c[0])
+}
+
 func filterUndecided(a, b, c []float64) bool {
+	if rangeTrouble(a, b, c) {
+		return true
+	}
 	detleft := (a[0] - c[0]) * (b[1] - c[1])
 	detright := (a[1] - c[1]) * (b[0] - c[0])
 	det := detleft - detright
@@ -227,6 +266,9 @@ func classify(cs Case) ([]string, bool) {
 	cl := []string{"class:" + cs.Class}
 	if und {
 		cl = append(cl, "filter-undecided", "undecided:"+cs.Class)
+	}
+	if rangeTrouble(a, b, c) {
+		cl = append(cl, "product-underflows-or-overflows")
 	}
 	if exactSign(a, b, c) == 0 {
 		cl = append(cl, "exactly-collinear")
